@@ -2,14 +2,15 @@
 import json, os
 from vlib import core
 
-THEOREMS = ['consts', 'single_writer', 'out_is_frames', 'frames_parse_back', 'ids_exact', 'ids_distinct', 'each_request_once',
+THEOREMS = ['consts', 'single_writer', 'src_frame_header', 'failed_stream_is_prefix', 'out_is_frames', 'frames_parse_back', 'ids_exact', 'ids_distinct', 'each_request_once',
             'token_has_frame', 'nothing_after_close', 'close_is_whole', 'monitor_sound']
-MODULES = ['LLRP.Model.WriteSide', 'LLRP.Model.WriteMonitor', 'LLRP.Proofs.WriteSide', 'LLRP.Oracle.C05']
+MODULES = ['LLRP.Model.WriteSide', 'LLRP.Proofs.HeaderGen', 'LLRP.Model.WriteMonitor', 'LLRP.Proofs.WriteSide', 'LLRP.Oracle.C05']
 RULE = ('A: deterministic dequeue orders (one item at a time, each waiting for its frame) of requests via SendMessage / SendNoWait with payload sizes '
         '0,1,2,3,9,10,11,255,256,1023,4096,65535,65536, MaxBufferedPayloadSz, +1 (thorough: 4 MiB, 20 random orders), keep-alive acks with ids '
         '0, 2^31, 2^32-1 between them, CloseConnection with and without payload last; the raw stream the peer recorded is split by hand and compared '
         'frame by frame (version, type, id, length, FNV-32 of payload, stray bytes) with the write-side fold. '
         "A': local Close() while a 40 KB - 4 MiB payload is in flight on a healthy connection (the peer has taken the header and 0 - 70000 payload bytes and pauses during Close): the raw stream is judged by the monitor. "
+        "A'': a client with a 250 ms write deadline whose peer takes 1-12 bytes of a request frame and stops reading for 1.5 deadlines while it keeps sending notifications (the read side stays alive), then reads on: what the peer received must be a prefix of the frame the fold writes (wr-prefix, theorem failed_stream_is_prefix). "
         'B: concurrent stress over net.Pipe and loopback TCP: 1,2,4,8,16 (thorough 32,64) senders x 5-12 messages, SendMessage and SendNoWait, '
         'contexts cancelled after 0-5 ms, one request in seven never answered, 6-16 (thorough 40) keep-alives injected at random moments (ids 0,1,2^31,2^32-1, '
         'a duplicate, random), graceful Shutdown racing with late senders; the RAW byte stream is judged by the Lean monitor checkWrite '
